@@ -37,6 +37,7 @@ def nsp_rho_basline(X0T, e=None, dedx=None):
     nspin = X0T.shape[0]
     e[:] += X0T[:, 0].mean(0)
     dedx[0, :] += 1.0 / nspin
+    return e, dedx
 
 
 def _lda_x_helper(X0T, e, dedx):
